@@ -188,6 +188,32 @@ impl Monitor for C01Monitor {
             if p != aggregated { r.count("mode_switches", 1) }
         }
         self.prev_mode = Some(aggregated);
+        // One root cause, many symptoms (a known finding, DESIGN section 9):
+        // a resource class that comes into existence while its CA is moving
+        // to another publication server gets a key whose certificate points
+        // at the NEW server, but the CA sends that key's objects to the OLD
+        // one, which refuses them ("outside of jail URI") - and with them
+        // the whole synchronisation, so nothing of that CA is published any
+        // more. Recognised by krill's own refusal in the CA's repository
+        // status; only then are the symptoms folded under one signature.
+        if !issues.is_empty() && w.remote.is_some() {
+            for ca in w.ca_handles() {
+                if ca == "ta" { continue }
+                let msg = w.krill.ca_manager()
+                    .get_repo_status(&kvh::world::h(&ca)).ok()
+                    .and_then(|s| s.last_exchange)
+                    .and_then(|e| e.opt_failure())
+                    .map(|e| e.msg).unwrap_or_default();
+                if msg.contains("outside of jail URI") {
+                    return vec![(
+                        "class-created-during-repository-move-published-to-old-server".into(),
+                        format!("{ca}: {msg}; symptoms: {:?}",
+                                issues.iter().map(|i| i.0.clone())
+                                    .collect::<Vec<_>>()),
+                    )]
+                }
+            }
+        }
         issues.into_iter().map(|(sig, d)| {
             (format!("{sig}@{}", op.kind()), d)
         }).collect()
@@ -223,12 +249,9 @@ fn run_history(
     cfg.aggregate = agg;
     cfg.rrdp_interval = rrdp_interval;
     if memory { cfg.memory = Some(seed) }
-    // Moves to the second publication server are scripted only (script 6).
-    // Random moves were withdrawn: a fresh-copy run of this check (seed 1,
-    // shard 9) once reported missing publications of a two-parent CA after a
-    // random move; nine local runs of the same shard did not reproduce it
-    // and it could not be classified (DESIGN section 10).
-    cfg.allow_remote = false;
+    // the random part may move CAs to the second publication server (one
+    // known finding is recognised by its root cause, see after_op)
+    cfg.allow_remote = true;
     r.distinct("configs", format!("{agg:?}/{rrdp_interval}/{memory}/{depth4}"));
     let mut script: Vec<Op> = hist::standard_forest(depth4);
     let n_setup = script.len();
